@@ -56,7 +56,7 @@ TYPE_DEPS = {"t_eqb": ["T"], "univ": ["T"], "null": ["T"], "union": ["T"], "inte
 # the definitions of the fixed PRELUDE of Gen/RunGen.v that a pass calls: name -> the Section variables it is discharged over
 PRELUDE_CALLS = {
     "call_forward_analyis": ["T", "t_eqb", "univ", "null", "union", "inter", "single", "f"],
-    "call_backward_analysis": ["T", "t_eqb", "null", "union", "inter", "f"],
+    "call_backward_analysis": ["T", "t_eqb", "univ", "null", "union", "inter", "f"],  # both univ and null: tcommon.pin_twins
 }
 RESERVED = set(TR.RESERVED) | {PASS_GEN}
 
